@@ -11,6 +11,8 @@ import (
 func init() {
 	rt.Register("C11_Offsets", C11_Offsets)
 	rt.Register("C11_LineColumn", C11_LineColumn)
+	rt.Register("C11_ManyLines", C11_ManyLines)
+	rt.Register("C11_ManyFiles", C11_ManyFiles)
 }
 
 const maxLen = 1 << 40
@@ -243,4 +245,92 @@ func C11_LineColumn() {
 		return
 	}
 	rt.Assert(real.Position(len(data)+1) == parsley.NilPosition, "file-position/past-end")
+}
+
+// C11_ManyLines: a file of K lines (lengths 0..3, line ends LF or CRLF in a
+// fixed pattern, one symbolic byte in the middle line), after a file of
+// symbolic length: line and column of every offset.
+func C11_ManyLines() {
+	k := rt.Param("K", 40)
+	var raw []byte
+	for i := 0; i < k; i++ {
+		for j := 0; j < (i*7)%4; j++ {
+			raw = append(raw, 'x')
+		}
+		if i == k/2 {
+			raw = append(raw, rt.Byte("in"))
+		}
+		if i%3 == 1 {
+			raw = append(raw, '\r')
+		}
+		if i < k-1 || k%2 == 0 {
+			raw = append(raw, '\n')
+		}
+	}
+	var data []byte
+	for i := 0; i < len(raw); i++ {
+		if raw[i] == '\r' && i+1 < len(raw) && raw[i+1] == '\n' {
+			continue
+		}
+		data = append(data, raw[i])
+	}
+	cp := make([]byte, len(raw))
+	copy(cp, raw)
+	real := text.NewFile("real.txt", cp)
+	first := &fakeFile{name: "first", length: rt.IntRange("len", 0, maxLen)}
+	fs := parsley.NewFileSet(first, real)
+	base := 1 + first.length + 1
+	rt.Assert(real.Len() == len(data), "many-lines/normalised-length")
+	c := rt.Choose("cursor", len(data)+1)
+	res := fs.Position(parsley.Pos(base + c))
+	tp, ok := res.(*text.Position)
+	if !ok {
+		rt.Fail("many-lines/not-attributed", "")
+		return
+	}
+	wl, wc := lineCol(data, c)
+	rt.ObsInt("line", tp.Line)
+	rt.ObsInt("column", tp.Column)
+	rt.Assert(tp.Line == wl, "many-lines/line")
+	rt.Assert(tp.Column == wc, "many-lines/column")
+	if wl > 32 {
+		rt.Cover("position beyond line 32")
+	}
+}
+
+// C11_ManyFiles: K files (three of symbolic length), a symbolic global position: it
+// is attributed to the one file whose range contains it, at the right offset.
+func C11_ManyFiles() {
+	k := rt.Param("KF", 12)
+	files := make([]*fakeFile, k)
+	var all []parsley.File
+	want := rt.Choose("file", k)
+	for i := range files {
+		// symbolic length for the first file, the one asked about and its
+		// predecessor; the others have small concrete lengths
+		if i == 0 || i == want || i+1 == want {
+			files[i] = &fakeFile{name: "f" + itoa(i), length: rt.IntRange("len", 0, maxLen)}
+		} else {
+			files[i] = &fakeFile{name: "f" + itoa(i), length: (i * 5) % 7}
+		}
+		all = append(all, files[i])
+	}
+	fs := parsley.NewFileSet(all...)
+	base := 1
+	for i := 0; i < want; i++ {
+		base += files[i].length + 1
+	}
+	off := rt.IntRange("off", 0, maxLen)
+	rt.Assume(off <= files[want].length)
+	fs.Position(parsley.Pos(base + off))
+	for i, f := range files {
+		if i == want {
+			rt.Assert(len(f.asked) == 1 && f.asked[0] == off, "many-files/attributed")
+		} else {
+			rt.Assert(len(f.asked) == 0, "many-files/not-attributed-elsewhere")
+		}
+	}
+	if want >= 8 {
+		rt.Cover("position in the ninth or a later file")
+	}
 }
